@@ -36,6 +36,11 @@ def load_known() -> set[tuple[str, str]]:
     return {tuple(x) for x in json.load(open(p, encoding='utf-8'))['units']}
 
 
+def load_known_locals() -> dict[str, list[str]] | None:
+    p = os.path.join(os.path.dirname(os.path.abspath(__file__)), 'known_units.json')
+    return json.load(open(p, encoding='utf-8')).get('locals')
+
+
 # ------------------------------------------------------------------------------------------------ discovery
 def _defs(tree: ast.Module):
     """(qualname, def node, container body list, enclosing class name or None, enclosing def or None)."""
